@@ -424,8 +424,8 @@ func run(id, tier string, seed uint64, jobs int, keep bool) int {
 	os.MkdirAll(evDir, 0755)
 	os.WriteFile(filepath.Join(evDir, id+".json"), eb, 0644)
 
-	fmt.Printf("property=%s tier=%s seed=%d cases=%d distinct_nontrivial=%d violations=%d known=%d wall=%.1fs\n",
-		id, tier, seed, evals, len(hashes), newViol, len(knownSeen), wall)
+	fmt.Printf("property=%s tier=%s seed=%d cases=%d evaluations=%d distinct_nontrivial=%d violations=%d known=%d wall=%.1fs\n",
+		id, tier, seed, evals, evalsReported, distinctReported, newViol, len(knownSeen), wall)
 	if newViol > 0 {
 		return 1
 	}
